@@ -75,6 +75,11 @@ type Scenario struct {
 	Flags     string   `json:"flags"` // p006 p007 p016 p018 p021 p023
 	P026      bool     `json:"p026"`
 	P004      bool     `json:"p004"`
+	P010      bool     `json:"p010,omitempty"` // Proposal010Block == height (removeUnusedValidator)
+	P019      bool     `json:"p019,omitempty"` // Proposal019Block == height (removeUnusedValidator1)
+	P025      uint64   `json:"p025,omitempty"` // Proposal025Block (0 = far away): calcDifficulty
+	DiffCount uint64   `json:"diffCount,omitempty"`
+	Working   uint64   `json:"working,omitempty"`
 	Accounts  []Acct   `json:"accounts"`
 	Escrow    []Esc    `json:"escrow,omitempty"`
 	Miners    []MinerS `json:"miners,omitempty"`
@@ -135,6 +140,15 @@ func applyFlags(sc *Scenario, global uint64, useDev bool) {
 	if sc.P004 {
 		c.Proposal004Block = sc.Height
 	}
+	if sc.P010 {
+		c.Proposal010Block = sc.Height
+	}
+	if sc.P019 {
+		c.Proposal019Block = sc.Height
+	}
+	if sc.P025 != 0 {
+		c.Proposal025Block = sc.P025
+	}
 	if sc.P026 {
 		c.Proposal026Block = 0
 	} else {
@@ -191,6 +205,12 @@ func buildParent(sc *Scenario) (common.Hash, account.AccountDatabase) {
 	for _, e := range sc.Escrow {
 		s.SetData(escrowAddr(e.H), unhex(e.Id), bigOf(e.V).Bytes())
 	}
+	if sc.DiffCount != 0 {
+		s.SetData(common.DifficultyAddress, castorBytes(sc), utility.UInt64ToByte(sc.DiffCount))
+	}
+	if sc.Working != 0 {
+		s.SetData(common.DifficultyAddress, common.TotalWorkingMiners, utility.UInt64ToByte(sc.Working))
+	}
 	for _, c := range sc.Contracts {
 		s.SetCode(common.BytesToAddress(unhex(c.Addr)), unhex(c.Code))
 	}
@@ -200,6 +220,13 @@ func buildParent(sc *Scenario) (common.Hash, account.AccountDatabase) {
 		service.MinerManagerImpl.InsertMiner(mm, s)
 	}
 	return commit(s, t), t
+}
+
+func castorBytes(sc *Scenario) []byte {
+	if sc.Castor == "" {
+		return nil
+	}
+	return unhex(sc.Castor)
 }
 
 func commit(s *account.AccountDB, t account.AccountDatabase) common.Hash {
@@ -477,7 +504,7 @@ func dump(st *account.AccountDB, watch []common.Address, wesc []escKey, miners [
 		if b := st.GetData(db, k3); len(b) == 1 {
 			status = b[0]
 		}
-		m = append(m, fmt.Sprintf("%s:%d:%d:%s:%d:%d", hx.Hex(id), mi.Type, stake, acct, status, alive))
+		m = append(m, fmt.Sprintf("%s:%d:%d:%s:%d:%d", new(big.Int).SetBytes(id).String(), mi.Type, stake, acct, status, alive))
 	}
 	return "st=" + strings.Join(a, ",") + " esc=" + strings.Join(e, ",") + " mi=" + strings.Join(m, ",")
 }
@@ -587,7 +614,24 @@ func emitScenario(out *hx.Out, r *hx.Rng, sc *Scenario) {
 	if sc.P004 {
 		p4 = sc.Height
 	}
-	op := fmt.Sprintf("block %d %d %s %s %s%s %d%s", sc.Height, p4, sc.Flags, feeOf(sc).String(), a20(common.FeeAccount), rw, len(sc.Txs), txs.String())
+	b2i := func(b bool) int {
+		if b {
+			return 1
+		}
+		return 0
+	}
+	castor, p25 := "-", "x"
+	if sc.Castor != "" {
+		castor = sc.Castor
+	}
+	if sc.P025 != 0 {
+		p25 = strconv.FormatUint(sc.P025, 10)
+	}
+	if sc.DiffCount != 0 || sc.Working != 0 {
+		out.Emit(fmt.Sprintf("diff %s %d %d", castor, sc.DiffCount, sc.Working), "ok")
+	}
+	op := fmt.Sprintf("block %d %d %s %s %s S %d %d %s %s%s %d%s", sc.Height, p4, sc.Flags, feeOf(sc).String(), a20(common.FeeAccount),
+		b2i(sc.P010), b2i(sc.P019), p25, castor, rw, len(sc.Txs), txs.String())
 	root, t := buildParent(sc)
 	typeOf := map[common.Hash]int32{}
 	for _, x := range sc.Txs {
@@ -612,7 +656,9 @@ func emitScenario(out *hx.Out, r *hx.Rng, sc *Scenario) {
 			return "COMMIT-ROOT-DIFFERS"
 		}
 		fresh, _ := account.NewAccountDB(nr, t)
-		return "ev=" + strings.Join(ev, ",") + " rc=" + strings.Join(rc, ",") + " " + dump(fresh, wl, el, sc.Miners)
+		df := fmt.Sprintf(" df=%d:%d", utility.ByteToUInt64(fresh.GetData(common.DifficultyAddress, castorBytes(sc))),
+			utility.ByteToUInt64(fresh.GetData(common.DifficultyAddress, common.TotalWorkingMiners)))
+		return "ev=" + strings.Join(ev, ",") + " rc=" + strings.Join(rc, ",") + " " + dump(fresh, wl, el, sc.Miners) + df
 	})
 }
 
@@ -914,6 +960,40 @@ func genScenario(r *hx.Rng, i int, allowOpaque bool) *Scenario {
 			sc.Castor = sc.Miners[r.Intn(np)].Id
 		} else if r.Bool() {
 			sc.Castor = "dd0000"
+		}
+		// special heights: the hard-coded validator clean-ups and the difficulty counters
+		if r.Chance(1, 8) {
+			sc.P010 = true
+			for k, id := range []string{"01820ed1304f0484e252ddac1ab5a1e6e16e5ebf89f022c092e8decd69e088e6", "18b97514b118dda8d8a30f16fc6de49ebeac849359e6ffd17b5299a82112eedd", "008825f3184b9f6f0935830c7738d1da3f9dc2a055f99c8c06176f36f5951686"} {
+				if r.Chance(2, 3) {
+					m := MinerS{Id: id, Type: byte(r.Pick(0, 0, 0, 1)), Stake: uint64(400 * (1 + r.Intn(3))), Account: poolAddrs[(k+r.Intn(3))%len(poolAddrs)]}
+					if m.Type == 1 {
+						m.Stake = 2000
+					}
+					sc.Miners = append(sc.Miners, m)
+					if r.Bool() {
+						sc.Group = append(sc.Group, id)
+					}
+				}
+			}
+		}
+		if r.Chance(1, 8) {
+			sc.P019 = true
+			for k, id := range []string{"5437f9dd7171db9d04a8347dca5bf2b7789081631d79d2d7882c1774d2f4d123", "2a17671c5a32175335fa098951ba50a9b4730aea7ecee86df6536297900f5b77"} {
+				if r.Chance(2, 3) {
+					sc.Miners = append(sc.Miners, MinerS{Id: id, Type: 0, Stake: 400, Account: poolAddrs[(k+2)%len(poolAddrs)], Status: byte(r.Pick(0, 0, 2))})
+					sc.Group = append(sc.Group, id)
+				}
+			}
+		}
+		if r.Chance(1, 3) {
+			sc.P025 = sc.Height - uint64(r.Intn(3))
+			if r.Bool() {
+				sc.DiffCount = uint64(1 + r.Intn(5))
+				sc.Working = uint64(1 + r.Intn(4))
+			} else if r.Bool() {
+				sc.Working = uint64(r.Intn(4))
+			}
 		}
 		// miner refund transactions: partial / full / too much / unparsable amounts, foreign senders,
 		// unknown ids, several refunds falling on the same height (same and different accounts)
